@@ -83,3 +83,19 @@ Theorem C14_recognition_roundtrip_judge_sound : forall rec signed rc cf Mo rc2 v
   rc = 0 /\ rc2 = 0 /\ v = 1 /\ rc3 = 0 /\ exists m n M, Mo = Some (m, n, M) /\ M2o = Some (m, n, M).
 Proof. exact RtProofs.judge_reprt_sound. Qed.
 Print Assumptions C14_recognition_roundtrip_judge_sound.
+
+(* ---------- cmr-graphic -c / cmr-network -c judged byte file to byte file ---------- *)
+From Cmr Require CliModel CliProofs.
+Theorem C14_tool_compute_judge_sound : forall rec signed tr outfmt inb rc hasout outb rest G f c T C,
+  CliProofs.cligraph_input rec = Some ((signed, tr, outfmt, inb, rc, hasout, outb), rest) ->
+  CliModel.judge_cligraph rec = 0 ->
+  CliModel.edgelist_graph inb = Some (G, f, c) ->
+  is_spanning_forest G f = true ->
+  lookup_all (g_edges G) f = Some T ->
+  lookup_all (g_edges G) c = Some C ->
+  rc = 0 /\ hasout = true /\
+  parse outfmt 0 outb =
+    (if tr then TOk (List.length C) (List.length T) (transpose (List.length T) (List.length C) (rep_matrix signed T C))
+     else TOk (List.length T) (List.length C) (rep_matrix signed T C)).
+Proof. exact CliProofs.judge_cligraph_sound. Qed.
+Print Assumptions C14_tool_compute_judge_sound.
